@@ -2061,6 +2061,10 @@ static void FreeSymbolEntry(PSymbolEntry* Node, Boolean Destroy) {
 
 static char *serr, *snum;
 
+/* set by SymbolAdder when it refused the new entry (and freed it) */
+
+static Boolean SymbolRejected;
+
 typedef struct {
     Boolean MayChange, DoCross;
 } TEnterStruct, *PEnterStruct;
@@ -2098,6 +2102,7 @@ static Boolean SymbolAdder(PTree* PDest, PTree Neu, void* pData) {
         }
         WrXError(ErrNum_DoubleDef, serr);
         FreeSymbolEntry(&NewEntry, TRUE);
+        SymbolRejected = True;
         return False;
     }
 
@@ -2115,6 +2120,7 @@ static Boolean SymbolAdder(PTree* PDest, PTree Neu, void* pData) {
                                     : ErrNum_ConstantRedefinedAsVariable,
                 serr);
         FreeSymbolEntry(&NewEntry, TRUE);
+        SymbolRejected = True;
         return False;
     }
 
@@ -2353,6 +2359,7 @@ PSymbolEntry EnterIntSymbolWithFlags(
     pNeu->RefList               = NULL;
     pNeu->SymWert.Relocs        = NULL;
 
+    SymbolRejected = False;
     if ((MomLocHandle == -1) || (DestHandle != -2) || MayChange) {
         EnterSymbol(pNeu, MayChange, DestHandle);
         if (MakeDebug) {
@@ -2361,7 +2368,7 @@ PSymbolEntry EnterIntSymbolWithFlags(
     } else {
         EnterLocSymbol(pNeu);
     }
-    return pNeu;
+    return SymbolRejected ? NULL : pNeu;
 }
 
 /*!------------------------------------------------------------------------
@@ -2433,6 +2440,7 @@ PSymbolEntry EnterRelSymbol(
     pNeu->SymWert.Relocs->Ref   = as_strdup(RelName_SegStart);
     pNeu->SymWert.Relocs->Add   = True;
 
+    SymbolRejected = False;
     if ((MomLocHandle == -1) || (DestHandle != -2) || MayChange) {
         EnterSymbol(pNeu, MayChange, DestHandle);
         if (MakeDebug) {
@@ -2442,7 +2450,7 @@ PSymbolEntry EnterRelSymbol(
         EnterLocSymbol(pNeu);
     }
 
-    return pNeu;
+    return SymbolRejected ? NULL : pNeu;
 }
 
 /*!------------------------------------------------------------------------
